@@ -334,3 +334,81 @@ Proof.
   intros HF. destruct (engine_run_completes P (dirty s) s HF (fun c H => H)) as [n Hn].
   eexists. split; [apply run_steps | exact Hn].
 Qed.
+
+(* ---------------------------------------------------------------------------------------- *)
+(* the two "data engine not making progress" checks of _update_loop never fire:
+   (1) whenever a lock is released by a completed work item, _recompute_done_counter >=
+       _expected_done_counter (after the increment);
+   (2) when a top-level work item completes, at least one cell has been computed since it was picked. *)
+
+Inductive lchain : list frame -> Prop :=
+| lchain_nil : lchain []
+| lchain_bottom c : lchain [(c, None)]
+| lchain_push d c l rest : lchain ((c, l) :: rest) -> lchain ((d, Some c) :: (c, l) :: rest).
+
+Definition ctr_inv (s : state) : Prop :=
+  (forall x, In x (locked s) -> In x (dirty s)) /\
+  (nexp s <= ndone s)%nat /\
+  (forall c l rest, stack s = (c, l) :: rest -> mem c (dirty s) = false -> locked s <> [] ->
+     (nexp s < ndone s)%nat) /\
+  (ndone s = O -> forall f, In f (stack s) -> mem (fst f) (dirty s) = true) /\
+  lchain (stack s).
+
+Lemma ctr_inv_init v d : ctr_inv (init_state v d).
+Proof.
+  unfold ctr_inv, init_state; cbn [locked dirty stack ndone nexp].
+  split; [intros x []|]. split; [lia|]. split; [intros; discriminate|]. split; [intros _ f [] | constructor].
+Qed.
+
+Lemma ctr_inv_step P s s' : step P s s' -> ctr_inv s -> ctr_inv s'.
+Proof.
+  intros St [C1 [C2 [C3 [C4 C5]]]].
+  assert (Fin : forall x v, ctr_inv (finish s x v)).
+  { intros x v. unfold ctr_inv; cbn [finish locked dirty stack ndone nexp].
+    split; [intros y Hy; apply In_remove in Hy; apply In_remove; split; [apply C1|]; tauto|].
+    split; [lia|]. split; [intros; lia|]. split; [intros; discriminate | exact C5]. }
+  destruct St; try apply Fin; unfold ctr_inv; cbn [locked dirty stack ndone nexp].
+  - (* pick *) split; [exact C1|]. split; [lia|]. split.
+    + intros c0 l rest E Hc. inversion E; subst. congruence.
+    + split; [intros _ f [<-|[]]; exact H0 | constructor].
+  - (* need *) assert (Hd : mem d (dirty s) = true).
+    { unfold run_formula in H2. destruct (P c); [|discriminate]. inversion H2 as [H3].
+      apply eval_need_dirty in H3. exact H3. }
+    split; [intros x [<-|Hx]; [apply mem_In; exact H0 | apply C1; exact Hx]|].
+    split; [exact C2|]. split.
+    + intros c0 l0 rest0 E Hc. inversion E; subst. congruence.
+    + split; [intros Hz f [<-|Hf]; [exact Hd | apply C4; assumption]|].
+      rewrite H. constructor. rewrite <- H. exact C5.
+  - (* pop *)
+    assert (Hsub : forall x, In x (unlock l (locked s)) -> In x (locked s)).
+    { intros x. destruct l; cbn [unlock]; [rewrite In_remove; tauto | auto]. }
+    assert (Hlt : lock_held l (locked s) = true -> (nexp s < ndone s)%nat).
+    { intros Hh. apply (C3 _ _ _ H H0). destruct l as [cl|]; [|discriminate]. cbn [lock_held] in Hh.
+      apply mem_In in Hh. intros E. rewrite E in Hh. destruct Hh. }
+    rewrite H in C5.
+    split; [intros x Hx; apply C1; apply Hsub; exact Hx|].
+    split; [destruct (lock_held l (locked s)); [apply Hlt; reflexivity | exact C2]|].
+    split; [|split].
+    + intros c1 l1 rest1 E Hc1 Hne. subst rest. inversion C5; subst. cbn [lock_held unlock] in *.
+      destruct (mem c1 (locked s)) eqn:Hh.
+      * apply mem_In in Hh. apply C1 in Hh. apply mem_In in Hh. congruence.
+      * apply (C3 _ _ _ H H0). intros E0. rewrite E0 in Hne. apply Hne. reflexivity.
+    + intros Hz f Hf. apply C4; [exact Hz|]. rewrite H. right. exact Hf.
+    + inversion C5; subst; [constructor | assumption].
+Qed.
+
+Lemma ctr_inv_steps P s s' : steps P s s' -> ctr_inv s -> ctr_inv s'.
+Proof. induction 1; intros; [assumption | eauto using ctr_inv_step]. Qed.
+
+(* (1) in every reachable state the done counter is at least the expected counter *)
+Theorem progress_checks_hold P v d s : steps P (init_state v d) s -> progress_ok s.
+Proof. intros H. apply (ctr_inv_steps _ _ _ H (ctr_inv_init v d)). Qed.
+
+(* (2) a top-level work item can only complete after at least one cell was computed *)
+Theorem pass_computes_a_cell P v d s c :
+  steps P (init_state v d) s -> stack s = [(c, None)] -> mem c (dirty s) = false -> (1 <= ndone s)%nat.
+Proof.
+  intros H Hs Hc. destruct (ctr_inv_steps _ _ _ H (ctr_inv_init v d)) as [_ [_ [_ [C4 _]]]].
+  destruct (ndone s) eqn:E; [|lia]. specialize (C4 eq_refl (c, None)). rewrite Hs in C4.
+  specialize (C4 (or_introl eq_refl)). cbn [fst] in C4. congruence.
+Qed.
